@@ -99,6 +99,53 @@ theorem prover_decision_iff_true (m : OvfMode) (p : Pred) (v : Int) (hv : I32 v)
 theorem prover_shape : Gen.proverRefusesNegativeDelta = true ∧ Gen.deltaRetTy = some .i64 ∧
     Gen.fourSquaresArgTy = some .i64 ∧ Gen.attrParseTy = some .i32 := ⟨rfl, rfl, rfl, rfl⟩
 
+/-- **predicate proofs are bound to the credential**: if the verifier's pass over the
+predicate proofs of a sub-proof succeeds, every predicate response `mj` is the equality
+proof's response for the predicate's attribute — so a predicate cannot be proven about a value
+other than the one signed in the credential of the same sub-proof (the extraction of `mj` and
+of `m[attr]` is one and the same integer). Any number of predicates. -/
+theorem ne_bound_to_eq {G : Type} (o : GroupOps G) (m : OvfMode) (pk : PubKey G) (c : Int)
+    (eqM : List (String × Int)) : ∀ (ps : List (NeProof G)) (ts : List G),
+      verifyNeAll o m pk c eqM ps = .ok ts →
+      ∀ p ∈ ps, lookup p.pred.attr eqM = some p.mj := by
+  intro ps
+  induction ps with
+  | nil => intro ts _ p hp; simp at hp
+  | cons q qs ih =>
+    intro ts h p hp
+    simp only [verifyNeAll] at h
+    cases hl : lookup q.pred.attr eqM with
+    | none => simp [getOrErr, hl] at h
+    | some mhat =>
+      simp only [getOrErr, hl, Outcome.bind_ok] at h
+      by_cases hne : mhat != q.mj
+      · simp [hne] at h
+      · simp only [hne, Bool.false_eq_true, if_false] at h
+        have hm : mhat = q.mj := by simpa using hne
+        cases hv : verifyNePredicate o m pk q c with
+        | ok tl =>
+          rw [hv] at h
+          simp only [Outcome.bind_ok] at h
+          cases hr : verifyNeAll o m pk c eqM qs with
+          | ok rest =>
+            simp only [List.mem_cons] at hp
+            rcases hp with rfl | hp
+            · rw [hl, hm]
+            · exact ih rest hr p hp
+          | err => rw [hr] at h; simp at h
+          | panic => rw [hr] at h; simp at h
+        | err => rw [hv] at h; simp at h
+        | panic => rw [hv] at h; simp at h
+
+/-- the cheating strategy "predicate on another value" (`mj` not the equality proof's
+response) is rejected outright, whatever the rest of the predicate proof looks like -/
+theorem pred_on_other_value_rejected {G : Type} (o : GroupOps G) (m : OvfMode) (pk : PubKey G)
+    (c : Int) (eqM : List (String × Int)) (p : NeProof G) (ps : List (NeProof G)) (mhat : Int)
+    (h1 : lookup p.pred.attr eqM = some mhat) (h2 : mhat ≠ p.mj) :
+    verifyNeAll o m pk c eqM (p :: ps) = .err := by
+  have : (mhat != p.mj) = true := by simpa using h2
+  simp only [verifyNeAll, getOrErr, h1, Outcome.bind_ok, this, if_true]
+
 /-! non-vacuity: the extremes of the range are covered -/
 example : I32 2147483647 ∧ I32 (-2147483648) := by unfold I32; omega
 example : getDelta .checked ⟨"a", .GE, -2147483648⟩ 2147483647 = .ok 4294967295 := by decide
